@@ -1,7 +1,1135 @@
-//! C16 harness (stub until built)
+//! C16: overload resolution is order-independent and prefers exact matches.
+//!
+//! request : C16.resolve \t cand;cand;...  \t arg,arg,...
+//!             cand  = <id>:<non_default>:<param>,<param>,...      (declaration order = order in the request)
+//!             param = <in|out|inout>/<mods>/<layer>
+//!             arg   = <L|R>/<mods>/<layer>
+//!             mods  = `-` or letters c(onst) v(olatile) r(ow_major) k(column_major) u(norm) n(snorm)
+//!             layer = s.<Scalar> | v.<Scalar>.<n> | m.<Scalar>.<x>.<y> | e.<id> | o.<id>
+//!           run as a generated RSSL program: every candidate returns its own struct `R<id>`, the call is
+//!           `assert_type<R..>(f(args))`; the verdict is read off acceptance / the diagnostic.
+//! observe : sel <id> | amb <id,id,..> (ascending) | none | panic
+//! oracle  : (independent of the Lean model) the verdict is the same under every permutation of the declaration order;
+//!           a unique exactly-matching viable candidate is selected (several: all reported ambiguous);
+//!           the selected candidate is not dominated by another viable one, ranks taken from the real
+//!           `ImplicitConversion::find(..).get_rank()`.
+//!
+//! request : C16.conv \t <src arg> \t <dst arg> <dst arg> ...
+//! observe : per destination  err | <NumericRank|panic>/<VectorRank|panic>><target type | panic>   (space separated)
+//!           straight from `rssl_typer::verif::ImplicitConversion::{find, get_rank, get_target_type}`.
 use crate::util::*;
+use rssl::ir;
+use rssl::ir::ScalarType;
+use rssl::typer::verif::ImplicitConversion;
+use std::collections::HashMap;
 
-pub fn run(_args: &Args, _out: &mut Out) {
-    eprintln!("C16: harness not built yet");
-    std::process::exit(2);
+// ------------------------------------------------------------------------------------------- types
+
+#[derive(Clone, Copy, PartialEq, Eq, Hash, PartialOrd, Ord, Debug)]
+pub enum Layer {
+    Scalar(u8),
+    Vector(u8, u32),
+    Matrix(u8, u32, u32),
+    Enum(u32),
+    Other(u32),
+}
+
+const SCALARS: &[(ScalarType, &str, &str)] = &[
+    (ScalarType::Bool, "Bool", "bool"),
+    (ScalarType::IntLiteral, "IntLiteral", ""),
+    (ScalarType::Int32, "Int32", "int"),
+    (ScalarType::UInt32, "UInt32", "uint"),
+    (ScalarType::FloatLiteral, "FloatLiteral", ""),
+    (ScalarType::Float16, "Float16", "half"),
+    (ScalarType::Float32, "Float32", "float"),
+    (ScalarType::Float64, "Float64", "double"),
+];
+const S_BOOL: u8 = 0;
+const S_INTLIT: u8 = 1;
+const S_FLOATLIT: u8 = 4;
+/// the property's grid: bool,int,uint,half,float,double
+const GRID_SCALARS: &[u8] = &[0, 2, 3, 5, 6, 7];
+
+#[derive(Clone, Copy, PartialEq, Eq, Hash, PartialOrd, Ord, Debug, Default)]
+pub struct Mods(u8); // bit 0 c, 1 v, 2 r, 3 k, 4 u, 5 n
+const MOD_LETTERS: &[u8] = b"cvrkun";
+
+#[derive(Clone, Copy, PartialEq, Eq, Hash, PartialOrd, Ord, Debug)]
+pub struct Ty {
+    mods: Mods,
+    layer: Layer,
+}
+
+#[derive(Clone, Copy, PartialEq, Eq, Hash, PartialOrd, Ord, Debug)]
+pub struct ETy {
+    lvalue: bool,
+    ty: Ty,
+}
+
+#[derive(Clone, Copy, PartialEq, Eq, Hash, PartialOrd, Ord, Debug)]
+pub enum Io {
+    In,
+    Out,
+    InOut,
+}
+
+#[derive(Clone, Copy, PartialEq, Eq, Hash, PartialOrd, Ord, Debug)]
+pub struct Param {
+    io: Io,
+    ty: Ty,
+}
+
+#[derive(Clone, PartialEq, Eq, Hash, PartialOrd, Ord, Debug)]
+pub struct Cand {
+    id: u32,
+    non_default: usize,
+    params: Vec<Param>,
+}
+
+fn show_mods(m: Mods) -> String {
+    if m.0 == 0 {
+        return "-".into();
+    }
+    let mut s = String::new();
+    for (i, c) in MOD_LETTERS.iter().enumerate() {
+        if m.0 & (1 << i) != 0 {
+            s.push(*c as char);
+        }
+    }
+    s
+}
+
+fn parse_mods(s: &str) -> Option<Mods> {
+    if s == "-" {
+        return Some(Mods(0));
+    }
+    let mut m = 0u8;
+    for c in s.bytes() {
+        let i = MOD_LETTERS.iter().position(|x| *x == c)?;
+        m |= 1 << i;
+    }
+    Some(Mods(m))
+}
+
+fn show_layer(l: Layer) -> String {
+    match l {
+        Layer::Scalar(s) => format!("s.{}", SCALARS[s as usize].1),
+        Layer::Vector(s, n) => format!("v.{}.{}", SCALARS[s as usize].1, n),
+        Layer::Matrix(s, x, y) => format!("m.{}.{}.{}", SCALARS[s as usize].1, x, y),
+        Layer::Enum(i) => format!("e.{}", i),
+        Layer::Other(i) => format!("o.{}", i),
+    }
+}
+
+fn parse_scalar(s: &str) -> Option<u8> {
+    SCALARS.iter().position(|x| x.1 == s).map(|i| i as u8)
+}
+
+fn parse_layer(s: &str) -> Option<Layer> {
+    let p: Vec<&str> = s.split('.').collect();
+    match p.as_slice() {
+        ["s", s] => Some(Layer::Scalar(parse_scalar(s)?)),
+        ["v", s, n] => Some(Layer::Vector(parse_scalar(s)?, n.parse().ok()?)),
+        ["m", s, x, y] => Some(Layer::Matrix(parse_scalar(s)?, x.parse().ok()?, y.parse().ok()?)),
+        ["e", i] => Some(Layer::Enum(i.parse().ok()?)),
+        ["o", i] => Some(Layer::Other(i.parse().ok()?)),
+        _ => None,
+    }
+}
+
+fn show_ty(t: Ty) -> String {
+    format!("{}/{}", show_mods(t.mods), show_layer(t.layer))
+}
+
+fn show_ety(e: ETy) -> String {
+    format!("{}/{}", if e.lvalue { "L" } else { "R" }, show_ty(e.ty))
+}
+
+fn parse_ety(s: &str) -> Option<ETy> {
+    let p: Vec<&str> = s.split('/').collect();
+    if p.len() != 3 {
+        return None;
+    }
+    let lvalue = match p[0] {
+        "L" => true,
+        "R" => false,
+        _ => return None,
+    };
+    Some(ETy { lvalue, ty: Ty { mods: parse_mods(p[1])?, layer: parse_layer(p[2])? } })
+}
+
+fn show_param(p: Param) -> String {
+    let io = match p.io {
+        Io::In => "in",
+        Io::Out => "out",
+        Io::InOut => "inout",
+    };
+    format!("{}/{}", io, show_ty(p.ty))
+}
+
+fn parse_param(s: &str) -> Option<Param> {
+    let p: Vec<&str> = s.split('/').collect();
+    if p.len() != 3 {
+        return None;
+    }
+    let io = match p[0] {
+        "in" => Io::In,
+        "out" => Io::Out,
+        "inout" => Io::InOut,
+        _ => return None,
+    };
+    Some(Param { io, ty: Ty { mods: parse_mods(p[1])?, layer: parse_layer(p[2])? } })
+}
+
+fn show_cand(c: &Cand) -> String {
+    let ps: Vec<String> = c.params.iter().map(|p| show_param(*p)).collect();
+    format!("{}:{}:{}", c.id, c.non_default, ps.join(","))
+}
+
+fn parse_cand(s: &str) -> Option<Cand> {
+    let p: Vec<&str> = s.splitn(3, ':').collect();
+    if p.len() != 3 {
+        return None;
+    }
+    let params: Option<Vec<Param>> = if p[2].is_empty() {
+        Some(Vec::new())
+    } else {
+        p[2].split(',').map(parse_param).collect()
+    };
+    Some(Cand { id: p[0].parse().ok()?, non_default: p[1].parse().ok()?, params: params? })
+}
+
+fn show_cands(cs: &[Cand]) -> String {
+    cs.iter().map(show_cand).collect::<Vec<_>>().join(";")
+}
+
+fn show_args(a: &[ETy]) -> String {
+    a.iter().map(|e| show_ety(*e)).collect::<Vec<_>>().join(",")
+}
+
+// ------------------------------------------------------------------------------------------- real types
+
+struct Real {
+    module: ir::Module,
+}
+
+impl Real {
+    fn new() -> Self {
+        Real { module: ir::Module::create() }
+    }
+
+    fn ty(&mut self, t: Ty) -> ir::TypeId {
+        let reg = &self.module.type_registry;
+        let sid = |s: u8| reg.register_type(ir::TypeLayer::Scalar(SCALARS[s as usize].0));
+        let base = match t.layer {
+            Layer::Scalar(s) => sid(s),
+            Layer::Vector(s, n) => {
+                let i = sid(s);
+                reg.register_type(ir::TypeLayer::Vector(i, n))
+            }
+            Layer::Matrix(s, x, y) => {
+                let i = sid(s);
+                reg.register_type(ir::TypeLayer::Matrix(i, x, y))
+            }
+            Layer::Enum(i) => reg.register_type(ir::TypeLayer::Enum(ir::EnumId(i))),
+            Layer::Other(i) => reg.register_type(ir::TypeLayer::Struct(ir::StructId(i))),
+        };
+        if t.mods.0 == 0 {
+            base
+        } else {
+            let m = ir::TypeModifier {
+                is_const: t.mods.0 & 1 != 0,
+                volatile: t.mods.0 & 2 != 0,
+                row_major: t.mods.0 & 4 != 0,
+                column_major: t.mods.0 & 8 != 0,
+                unorm: t.mods.0 & 16 != 0,
+                snorm: t.mods.0 & 32 != 0,
+            };
+            reg.register_type(ir::TypeLayer::Modifier(m, base))
+        }
+    }
+
+    fn ety(&mut self, e: ETy) -> ir::ExpressionType {
+        let id = self.ty(e.ty);
+        if e.lvalue { id.to_lvalue() } else { id.to_rvalue() }
+    }
+
+    /// back from a real type id to the protocol's description
+    fn describe(&self, id: ir::TypeId) -> Option<Ty> {
+        let reg = &self.module.type_registry;
+        let (base, m) = reg.extract_modifier(id);
+        let mut bits = 0u8;
+        for (i, b) in [m.is_const, m.volatile, m.row_major, m.column_major, m.unorm, m.snorm].iter().enumerate() {
+            if *b {
+                bits |= 1 << i;
+            }
+        }
+        let sc = |s: ScalarType| SCALARS.iter().position(|x| x.0 == s).map(|i| i as u8);
+        let inner = |i: ir::TypeId| match reg.get_type_layer(i) {
+            ir::TypeLayer::Scalar(s) => sc(s),
+            _ => None,
+        };
+        let layer = match reg.get_type_layer(base) {
+            ir::TypeLayer::Scalar(s) => Layer::Scalar(sc(s)?),
+            ir::TypeLayer::Vector(i, n) => Layer::Vector(inner(i)?, n),
+            ir::TypeLayer::Matrix(i, x, y) => Layer::Matrix(inner(i)?, x, y),
+            ir::TypeLayer::Enum(e) => Layer::Enum(e.0),
+            ir::TypeLayer::Struct(s) => Layer::Other(s.0),
+            _ => return None,
+        };
+        Some(Ty { mods: Mods(bits), layer })
+    }
+
+    /// `find` + `get_rank`: Ok(None) = no conversion, Ok(Some((num, vec))) = Debug names, Err = panic
+    fn rank(&mut self, src: ETy, dst: ETy) -> Result<Option<(String, String)>, String> {
+        let s = self.ety(src);
+        let d = self.ety(dst);
+        let module = &mut self.module;
+        guard(move || match ImplicitConversion::find(s, d, module) {
+            Err(()) => None,
+            Ok(c) => {
+                let r = c.get_rank();
+                Some((format!("{:?}", r.get_numeric_rank()), format!("{:?}", r.get_vector_rank())))
+            }
+        })
+    }
+
+    fn conv_cell(&mut self, src: ETy, dst: ETy) -> String {
+        let s = self.ety(src);
+        let d = self.ety(dst);
+        let found = {
+            let module = &mut self.module;
+            guard(move || ImplicitConversion::find(s, d, module))
+        };
+        let conv = match found {
+            Err(_) => return "panic".into(),
+            Ok(Err(())) => return "err".into(),
+            Ok(Ok(c)) => c,
+        };
+        let rank = {
+            let c = conv.clone();
+            match guard(move || {
+                let r = c.get_rank();
+                format!("{:?}/{:?}", r.get_numeric_rank(), r.get_vector_rank())
+            }) {
+                Ok(s) => s,
+                Err(_) => "panic/panic".into(),
+            }
+        };
+        let target = {
+            let module = &mut self.module;
+            let c = conv.clone();
+            guard(move || c.get_target_type(module))
+        };
+        let target = match target {
+            Err(_) => "panic".to_string(),
+            Ok(ir::ExpressionType(id, vt)) => match self.describe(id) {
+                Some(t) => show_ety(ETy { lvalue: vt == ir::ValueType::Lvalue, ty: t }),
+                None => "?".into(),
+            },
+        };
+        format!("{}>{}", rank, target)
+    }
+}
+
+// ------------------------------------------------------------------------------------------- programs
+
+fn spell(t: Ty) -> Option<String> {
+    let sc = |s: u8| {
+        let n = SCALARS[s as usize].2;
+        if n.is_empty() { None } else { Some(n) }
+    };
+    let base = match t.layer {
+        Layer::Scalar(s) => sc(s)?.to_string(),
+        Layer::Vector(s, n) if (1..=4).contains(&n) => format!("{}{}", sc(s)?, n),
+        Layer::Matrix(s, x, y) if (1..=4).contains(&x) && (1..=4).contains(&y) => format!("{}{}x{}", sc(s)?, x, y),
+        Layer::Enum(i) => format!("E{}", i),
+        Layer::Other(i) => format!("S{}", i),
+        _ => return None,
+    };
+    match t.mods.0 {
+        0 => Some(base),
+        1 => Some(format!("const {}", base)),
+        _ => None,
+    }
+}
+
+fn is_numeric(l: Layer) -> bool {
+    matches!(l, Layer::Scalar(_) | Layer::Vector(..) | Layer::Matrix(..))
+}
+
+/// RSSL program for one declaration order; None = not expressible (SKIP)
+fn program(cands: &[Cand], args: &[ETy], with_defs: bool) -> Option<String> {
+    let mut s = String::new();
+    let mut others: Vec<u32> = Vec::new();
+    let mut enums: Vec<u32> = Vec::new();
+    let mut note = |l: Layer| match l {
+        Layer::Other(i) if !others.contains(&i) => others.push(i),
+        Layer::Enum(i) if !enums.contains(&i) => enums.push(i),
+        _ => {}
+    };
+    for c in cands {
+        for p in &c.params {
+            note(p.ty.layer);
+        }
+    }
+    for a in args {
+        note(a.ty.layer);
+    }
+    others.sort();
+    enums.sort();
+    for i in &others {
+        s.push_str(&format!("struct S{} {{ int q; }};\n", i));
+    }
+    for i in &enums {
+        s.push_str(&format!("enum E{} {{ E{}_A }};\n", i, i));
+    }
+    let mut ids: Vec<u32> = cands.iter().map(|c| c.id).collect();
+    ids.sort();
+    for w in ids.windows(2) {
+        if w[0] == w[1] {
+            return None;
+        }
+    }
+    for id in &ids {
+        s.push_str(&format!("struct R{} {{ int q; }};\n", id));
+    }
+    // argument expressions
+    let mut locals = String::new();
+    let mut exprs = Vec::new();
+    for (i, a) in args.iter().enumerate() {
+        match (a.lvalue, a.ty.mods.0, a.ty.layer) {
+            (false, 0, Layer::Scalar(S_INTLIT)) => exprs.push("0".to_string()),
+            (false, 0, Layer::Scalar(S_FLOATLIT)) => exprs.push("0.0".to_string()),
+            (false, 0, _) => {
+                let t = spell(a.ty)?;
+                s.push_str(&format!("{} rv{}();\n", t, i));
+                exprs.push(format!("rv{}()", i));
+            }
+            (true, 0, _) => {
+                let t = spell(a.ty)?;
+                locals.push_str(&format!("    {} a{};\n", t, i));
+                exprs.push(format!("a{}", i));
+            }
+            (true, 1, l) if is_numeric(l) => {
+                let t = spell(Ty { mods: Mods(0), layer: l })?;
+                locals.push_str(&format!("    const {} a{} = ({})0;\n", t, i, t));
+                exprs.push(format!("a{}", i));
+            }
+            _ => return None,
+        }
+    }
+    let mut defs: Vec<String> = Vec::new();
+    for c in cands {
+        if c.non_default > c.params.len() {
+            return None;
+        }
+        let mut ps = Vec::new();
+        for (i, p) in c.params.iter().enumerate() {
+            if p.ty.mods.0 != 0 {
+                return None;
+            }
+            let t = spell(p.ty)?;
+            let io = match p.io {
+                Io::In => "",
+                Io::Out => "out ",
+                Io::InOut => "inout ",
+            };
+            let mut d = format!("{}{} p{}", io, t, i);
+            if i >= c.non_default {
+                if p.io != Io::In || !is_numeric(p.ty.layer) {
+                    return None;
+                }
+                d.push_str(&format!(" = ({})0", t));
+            }
+            ps.push(d);
+        }
+        s.push_str(&format!("R{} f({});\n", c.id, ps.join(", ")));
+        defs.push(format!("R{} f({}) {{ R{} r; return r; }}\n", c.id, ps.join(", "), c.id));
+    }
+    if with_defs {
+        // every candidate is declared above and *defined* here in the reverse order: a definition must attach to
+        // its declaration (scopes.rs check_existing_functions_in_scope) and neither duplicate nor reorder the set
+        for d in defs.iter().rev() {
+            s.push_str(d);
+        }
+    }
+    s.push_str("void main() {\n");
+    s.push_str(&locals);
+    s.push_str(&format!("    assert_type<R{}>(f({}));\n}}\n", ids[0], exprs.join(", ")));
+    Some(s)
+}
+
+#[derive(Clone, PartialEq, Eq, Debug)]
+enum Verdict {
+    Sel(u32),
+    Amb(Vec<u32>),
+    Unmatched,
+    Panic(String),
+    Other(String),
+}
+
+fn show_verdict(v: &Verdict) -> String {
+    match v {
+        Verdict::Sel(i) => format!("sel {}", i),
+        Verdict::Amb(ids) => format!("amb {}", ids.iter().map(|i| i.to_string()).collect::<Vec<_>>().join(",")),
+        Verdict::Unmatched => "none".into(),
+        Verdict::Panic(_) => "panic".into(),
+        Verdict::Other(e) => format!("error:{}", e),
+    }
+}
+
+fn num_after(text: &str, pat: &str) -> Vec<u32> {
+    let mut out = Vec::new();
+    let mut rest = text;
+    while let Some(i) = rest.find(pat) {
+        rest = &rest[i + pat.len()..];
+        let digits: String = rest.chars().take_while(|c| c.is_ascii_digit()).collect();
+        if let Ok(n) = digits.parse() {
+            out.push(n);
+        }
+    }
+    out
+}
+
+fn run_program(src: &str, first_id: u32) -> Verdict {
+    match guard(|| front_end_src(src)) {
+        Err(p) => Verdict::Panic(p),
+        Ok(Ok(_)) => Verdict::Sel(first_id),
+        Ok(Err(e)) => {
+            let text = e.text().to_string();
+            let first = text.lines().next().unwrap_or("").to_string();
+            if e.stage() != "type" {
+                return Verdict::Other(format!("{}:{}", e.stage(), first));
+            }
+            if first.contains("error: expected type 'R") {
+                match num_after(&first, "but received type 'R").first() {
+                    Some(n) => Verdict::Sel(*n),
+                    None => Verdict::Other(first),
+                }
+            } else if first.contains("error: ambiguous call to f(") {
+                let mut ids = num_after(&text, "note: candidate function: R");
+                ids.sort();
+                Verdict::Amb(ids)
+            } else if first.contains("error: no matching function for call to f(") {
+                Verdict::Unmatched
+            } else {
+                Verdict::Other(first)
+            }
+        }
+    }
+}
+
+// ------------------------------------------------------------------------------------------- oracle
+
+fn num_order(name: &str) -> Option<u32> {
+    // the property's reading of "better": the priority list at the top of casting.rs
+    ["Exact", "Promotion", "PromotionTwice", "IntToBool", "Conversion", "EnumToNumeric"]
+        .iter()
+        .position(|x| *x == name)
+        .map(|i| i as u32)
+}
+
+fn vec_order(name: &str) -> Option<u32> {
+    ["Exact", "Expand", "Contract"].iter().position(|x| *x == name).map(|i| i as u32)
+}
+
+struct Judged {
+    /// per viable candidate: id and per-argument (numeric, vector) order
+    viable: Vec<(u32, Vec<(u32, u32)>)>,
+    exact: Vec<u32>,
+    panic: Option<String>,
+}
+
+fn grid_layer(l: Layer, literal_ok: bool) -> bool {
+    match l {
+        Layer::Scalar(s) => GRID_SCALARS.contains(&s) || (literal_ok && (s == S_INTLIT || s == S_FLOATLIT)),
+        Layer::Vector(s, n) => GRID_SCALARS.contains(&s) && (2..=4).contains(&n),
+        _ => false,
+    }
+}
+
+fn param_ety(p: Param) -> ETy {
+    ETy { lvalue: p.io != Io::In, ty: p.ty }
+}
+
+fn judge_set(real: &mut Real, cands: &[Cand], args: &[ETy]) -> Judged {
+    let mut j = Judged { viable: Vec::new(), exact: Vec::new(), panic: None };
+    // "prefers exact matches" is judged on the property's quantifier only: parameter types on the grid
+    // {bool,int,uint,half,float,double} x {scalar,2,3,4}, arguments on the grid or untyped literals.
+    // (Outside it, e.g. with 1-vectors, `int` -> `int1` is ranked as exact as `int` -> `int`; see notes/C16.md.)
+    let on_grid = cands.iter().all(|c| c.params.iter().all(|p| grid_layer(p.ty.layer, false)))
+        && args.iter().all(|a| grid_layer(a.ty.layer, true));
+    for c in cands {
+        if !(args.len() <= c.params.len() && args.len() >= c.non_default) {
+            continue;
+        }
+        let mut ranks = Vec::new();
+        let mut ok = true;
+        for (p, a) in c.params.iter().zip(args) {
+            match real.rank(*a, param_ety(*p)) {
+                Err(pn) => {
+                    j.panic = Some(pn);
+                    ok = false;
+                    break;
+                }
+                Ok(None) => {
+                    ok = false;
+                    break;
+                }
+                Ok(Some((n, v))) => match (num_order(&n), vec_order(&v)) {
+                    (Some(n), Some(v)) => ranks.push((n, v)),
+                    _ => {
+                        j.panic = Some(format!("unknown rank {}/{}", n, v));
+                        ok = false;
+                        break;
+                    }
+                },
+            }
+        }
+        if !ok {
+            continue;
+        }
+        // exact: every passed argument's type equals the type of its parameter (the value category and
+        // const-ness of the argument expression are not part of its type; trailing defaulted parameters that
+        // receive no argument take no part in the comparison, as in C++)
+        if on_grid && c.params.iter().zip(args).all(|(p, a)| p.ty.layer == a.ty.layer) {
+            j.exact.push(c.id);
+        }
+        j.viable.push((c.id, ranks));
+    }
+    j
+}
+
+/// the property's own checks on one verdict; Ok or the failure detail
+fn oracle(j: &Judged, v: &Verdict) -> Result<(), String> {
+    if let Verdict::Panic(p) = v {
+        return Err(format!("panic {}", p));
+    }
+    if let Some(p) = &j.panic {
+        return Err(format!("panic {}", p));
+    }
+    if let Verdict::Other(e) = v {
+        return Err(format!("unexpected diagnostic: {}", e));
+    }
+    match v {
+        Verdict::Sel(id) => {
+            let Some((_, mine)) = j.viable.iter().find(|(i, _)| i == id) else {
+                return Err(format!("selected candidate {} is not viable (an argument has no implicit conversion)", id));
+            };
+            if !j.exact.is_empty() && !j.exact.contains(id) {
+                return Err(format!("candidate {:?} matches exactly but {} was selected", j.exact, id));
+            }
+            for (d, theirs) in &j.viable {
+                if d == id {
+                    continue;
+                }
+                let no_worse = theirs.iter().zip(mine).all(|(t, m)| t <= m);
+                let better = theirs.iter().zip(mine).any(|(t, m)| t < m);
+                if no_worse && better {
+                    return Err(format!("selected candidate {} is dominated by viable candidate {}", id, d));
+                }
+            }
+        }
+        Verdict::Amb(ids) => {
+            if j.exact.len() == 1 {
+                return Err(format!("candidate {} matches exactly but the call is ambiguous {:?}", j.exact[0], ids));
+            }
+            for e in &j.exact {
+                if !ids.contains(e) {
+                    return Err(format!("exact candidates {:?} but ambiguity reported between {:?}", j.exact, ids));
+                }
+            }
+            for i in ids {
+                if !j.viable.iter().any(|(v, _)| v == i) {
+                    return Err(format!("ambiguity names candidate {} which is not viable", i));
+                }
+            }
+        }
+        Verdict::Unmatched => {
+            if !j.exact.is_empty() {
+                return Err(format!("candidate {:?} matches exactly but the call is unmatched", j.exact));
+            }
+        }
+        _ => {}
+    }
+    Ok(())
+}
+
+// ------------------------------------------------------------------------------------------- running
+
+fn permutations(n: usize) -> Vec<Vec<usize>> {
+    fn rec(cur: &mut Vec<usize>, used: &mut Vec<bool>, n: usize, out: &mut Vec<Vec<usize>>) {
+        if cur.len() == n {
+            out.push(cur.clone());
+            return;
+        }
+        for i in 0..n {
+            if !used[i] {
+                used[i] = true;
+                cur.push(i);
+                rec(cur, used, n, out);
+                cur.pop();
+                used[i] = false;
+            }
+        }
+    }
+    let mut out = Vec::new();
+    rec(&mut Vec::new(), &mut vec![false; n], n, &mut out);
+    out
+}
+
+struct Group {
+    /// verdict per declaration order (key = the ids in order)
+    verdicts: Vec<(Vec<u32>, Verdict)>,
+    judged: Judged,
+    expressible: bool,
+}
+
+struct Runner {
+    real: Real,
+    cache: HashMap<String, Group>,
+    hist: Hist,
+    compiles: u64,
+}
+
+impl Runner {
+    fn new() -> Self {
+        Runner { real: Real::new(), cache: HashMap::new(), hist: Hist::default(), compiles: 0 }
+    }
+
+    /// run every permutation of the candidate set (capped for sets larger than 5)
+    fn group(&mut self, sorted: &[Cand], args: &[ETy], with_defs: bool) -> &Group {
+        let key = format!("{}\t{}\t{}", show_cands(sorted), show_args(args), with_defs);
+        if !self.cache.contains_key(&key) {
+            let judged = judge_set(&mut self.real, sorted, args);
+            let mut verdicts = Vec::new();
+            let mut expressible = true;
+            let perms = if sorted.len() <= 5 { permutations(sorted.len()) } else { vec![(0..sorted.len()).collect(), (0..sorted.len()).rev().collect()] };
+            for p in perms {
+                let order: Vec<Cand> = p.iter().map(|i| sorted[*i].clone()).collect();
+                let Some(src) = program(&order, args, with_defs) else {
+                    expressible = false;
+                    break;
+                };
+                self.compiles += 1;
+                let first = sorted.iter().map(|c| c.id).min().unwrap_or(0);
+                let v = run_program(&src, first);
+                verdicts.push((order.iter().map(|c| c.id).collect(), v));
+            }
+            if self.cache.len() > 4096 {
+                self.cache.clear();
+            }
+            self.cache.insert(key.clone(), Group { verdicts, judged, expressible });
+        }
+        &self.cache[&key]
+    }
+
+    /// one request (one declaration order); the oracle looks at the whole permutation group
+    fn resolve_case(&mut self, cands: &[Cand], args: &[ETy], with_defs: bool, out: &mut Out) {
+        let req = format!(
+            "C16.resolve\t{}\t{}{}",
+            show_cands(cands),
+            show_args(args),
+            if with_defs { "\tD" } else { "" }
+        );
+        let mut sorted = cands.to_vec();
+        sorted.sort();
+        let ids: Vec<u32> = cands.iter().map(|c| c.id).collect();
+        let g = self.group(&sorted, args, with_defs);
+        if !g.expressible || cands.is_empty() {
+            out.case(&req, "-", "SKIP:not expressible as an RSSL program");
+            return;
+        }
+        let Some((_, mine)) = g.verdicts.iter().find(|(o, _)| *o == ids) else {
+            out.case(&req, "-", "SKIP:declaration order not part of the permutation group");
+            return;
+        };
+        let mut verdict = oracle(&g.judged, mine);
+        if verdict.is_ok() {
+            // order independence: every other declaration order gives the same verdict
+            // (a panic under any order is reported on every line of the group)
+            for (o, v) in &g.verdicts {
+                if let Verdict::Panic(p) = v {
+                    verdict = Err(format!("panic {}", p));
+                    break;
+                }
+                if show_verdict(v) != show_verdict(mine) {
+                    verdict = Err(format!(
+                        "order-dependent: declaration order {:?} gives `{}` but order {:?} gives `{}`",
+                        ids,
+                        show_verdict(mine),
+                        o,
+                        show_verdict(v)
+                    ));
+                    break;
+                }
+            }
+        }
+        let obs = show_verdict(mine);
+        let kind = match mine {
+            Verdict::Sel(_) => "verdict:selected",
+            Verdict::Amb(_) => "verdict:ambiguous",
+            Verdict::Unmatched => "verdict:unmatched",
+            Verdict::Panic(_) => "verdict:panic",
+            Verdict::Other(_) => "verdict:other-error",
+        };
+        let nviable = g.judged.viable.len();
+        let nexact = g.judged.exact.len();
+        let o = match verdict {
+            Ok(()) => "ok".to_string(),
+            Err(e) => format!("FAIL:{}", e),
+        };
+        out.case(&req, &obs, &o);
+        self.hist.add(kind);
+        self.hist.add(&format!("viable:{}", nviable));
+        self.hist.add(&format!("exact:{}", nexact));
+        self.hist.add(&format!("cands:{}", cands.len()));
+        self.hist.add(&format!("args:{}", args.len()));
+        for a in args {
+            self.hist.add(match (a.lvalue, a.ty.mods.0, a.ty.layer) {
+                (_, _, Layer::Scalar(S_INTLIT)) => "arg:int-literal",
+                (_, _, Layer::Scalar(S_FLOATLIT)) => "arg:float-literal",
+                (true, 0, _) => "arg:lvalue",
+                (true, _, _) => "arg:const-lvalue",
+                (false, _, _) => "arg:rvalue",
+            });
+        }
+        for c in cands {
+            for p in &c.params {
+                self.hist.add(match p.io {
+                    Io::In => "param:in",
+                    Io::Out => "param:out",
+                    Io::InOut => "param:inout",
+                });
+            }
+            if c.non_default < c.params.len() {
+                self.hist.add("cand:has-default");
+            }
+        }
+    }
+
+    fn all_orders(&mut self, sorted: &[Cand], args: &[ETy], with_defs: bool, out: &mut Out) {
+        for p in permutations(sorted.len()) {
+            let order: Vec<Cand> = p.iter().map(|i| sorted[*i].clone()).collect();
+            self.resolve_case(&order, args, with_defs, out);
+        }
+    }
+
+    fn conv_row(&mut self, src: ETy, dsts: &[ETy], out: &mut Out) {
+        let req = format!(
+            "C16.conv\t{}\t{}",
+            show_ety(src),
+            dsts.iter().map(|d| show_ety(*d)).collect::<Vec<_>>().join(" ")
+        );
+        let cells: Vec<String> = dsts.iter().map(|d| self.real.conv_cell(src, *d)).collect();
+        // property-level sanity on the table: converting a type to itself (same value category) is the identity
+        let mut verdict = "ok".to_string();
+        for (d, c) in dsts.iter().zip(&cells) {
+            if *d == src && !c.starts_with("Exact/Exact>") {
+                verdict = format!("FAIL:identity conversion of {} is `{}`", show_ety(src), c);
+            }
+            self.hist.add(if c == "err" {
+                "conv:err"
+            } else if c.contains("panic") {
+                "conv:panic"
+            } else {
+                "conv:ok"
+            });
+        }
+        out.case(&req, &cells.join(" "), &verdict);
+    }
+}
+
+// ------------------------------------------------------------------------------------------- generators
+
+fn grid_ty(rng: &mut Rng) -> Ty {
+    let s = *rng.pick(GRID_SCALARS);
+    let layer = match rng.below(4) {
+        0 => Layer::Scalar(s),
+        n => Layer::Vector(s, n as u32 + 1),
+    };
+    Ty { mods: Mods(0), layer }
+}
+
+fn scalar_of(l: Layer) -> u8 {
+    match l {
+        Layer::Scalar(s) | Layer::Vector(s, _) | Layer::Matrix(s, _, _) => s,
+        _ => S_BOOL,
+    }
+}
+
+fn with_scalar(l: Layer, s: u8) -> Layer {
+    match l {
+        Layer::Scalar(_) => Layer::Scalar(s),
+        Layer::Vector(_, n) => Layer::Vector(s, n),
+        Layer::Matrix(_, x, y) => Layer::Matrix(s, x, y),
+        o => o,
+    }
+}
+
+/// a parameter type related to the centre type: same, other scalar kind, other dimension, or unrelated
+fn related_ty(rng: &mut Rng, centre: Ty) -> Ty {
+    match rng.below(8) {
+        0 | 1 => centre,
+        2..=4 => Ty { mods: Mods(0), layer: with_scalar(centre.layer, *rng.pick(GRID_SCALARS)) },
+        5 | 6 => {
+            let s = scalar_of(centre.layer);
+            let layer = match rng.below(4) {
+                0 => Layer::Scalar(s),
+                n => Layer::Vector(s, n as u32 + 1),
+            };
+            Ty { mods: Mods(0), layer }
+        }
+        _ => grid_ty(rng),
+    }
+}
+
+fn random_io(rng: &mut Rng) -> Io {
+    match rng.below(20) {
+        0..=14 => Io::In,
+        15..=18 => Io::Out,
+        _ => Io::InOut,
+    }
+}
+
+/// types outside the property's grid: 1-vectors, matrices, structs, enums (order independence and domination are
+/// still judged there; "exact match" is not, see `judge_set`)
+fn off_grid_ty(rng: &mut Rng) -> Ty {
+    let s = *rng.pick(GRID_SCALARS);
+    let layer = match rng.below(12) {
+        0..=3 => Layer::Vector(s, 1),
+        4 => Layer::Matrix(s, 2, 2),
+        5 => Layer::Matrix(s, 3, 2),
+        6..=8 => Layer::Other(rng.below(2) as u32),
+        _ => Layer::Enum(rng.below(2) as u32),
+    };
+    Ty { mods: Mods(0), layer }
+}
+
+fn random_set(rng: &mut Rng, hist: &mut Hist) -> (Vec<Cand>, Vec<Ty>) {
+    let k = match rng.below(20) {
+        0..=5 => 2,
+        6..=12 => 3,
+        13..=17 => 4,
+        _ => 5,
+    };
+    let arity = rng.range(1, 3) as usize;
+    let off_grid = rng.chance(1, 8);
+    if off_grid {
+        hist.add("set:off-grid");
+    }
+    let centre: Vec<Ty> = (0..arity)
+        .map(|_| if off_grid && rng.chance(1, 2) { off_grid_ty(rng) } else { grid_ty(rng) })
+        .collect();
+    let mut cands: Vec<Cand> = Vec::new();
+    let mut tries = 0;
+    while cands.len() < k && tries < 200 {
+        tries += 1;
+        let mut params: Vec<Param> = centre
+            .iter()
+            .map(|c| Param {
+                io: random_io(rng),
+                ty: if off_grid && rng.chance(1, 3) { off_grid_ty(rng) } else { related_ty(rng, *c) },
+            })
+            .collect();
+        let mut non_default = arity;
+        if arity < 3 && rng.chance(1, 8) {
+            // one more, defaulted, parameter
+            params.push(Param { io: Io::In, ty: grid_ty(rng) });
+        } else if arity > 1 && rng.chance(1, 12) && params[arity - 1].io == Io::In {
+            non_default = arity - 1;
+        }
+        // an overload set may not contain two candidates with the same parameter list
+        if cands.iter().any(|c| c.params == params) {
+            continue;
+        }
+        cands.push(Cand { id: cands.len() as u32, non_default, params });
+    }
+    hist.add(&format!("set:k{}", cands.len()));
+    hist.add(&format!("set:arity{}", arity));
+    (cands, centre)
+}
+
+fn random_arg(rng: &mut Rng, centre: Ty) -> ETy {
+    match rng.below(16) {
+        0 | 1 => ETy { lvalue: false, ty: Ty { mods: Mods(0), layer: Layer::Scalar(S_INTLIT) } },
+        2 => ETy { lvalue: false, ty: Ty { mods: Mods(0), layer: Layer::Scalar(S_FLOATLIT) } },
+        3 => {
+            let l = related_ty(rng, centre).layer;
+            // a const local needs an initialiser, which the generator only writes for numeric types
+            ETy { lvalue: true, ty: Ty { mods: Mods(if is_numeric(l) { 1 } else { 0 }), layer: l } }
+        }
+        n => ETy { lvalue: n % 2 == 0, ty: related_ty(rng, centre) },
+    }
+}
+
+fn grid_types() -> Vec<Ty> {
+    let mut v = Vec::new();
+    for s in GRID_SCALARS {
+        v.push(Ty { mods: Mods(0), layer: Layer::Scalar(*s) });
+        for n in 2..=4 {
+            v.push(Ty { mods: Mods(0), layer: Layer::Vector(*s, n) });
+        }
+    }
+    v
+}
+
+/// the universe of the exhaustive find/get_rank table
+fn conv_universe(thorough: bool) -> Vec<ETy> {
+    let mut layers = Vec::new();
+    for s in 0..SCALARS.len() as u8 {
+        layers.push(Layer::Scalar(s));
+        for n in 1..=4 {
+            layers.push(Layer::Vector(s, n));
+        }
+        layers.push(Layer::Matrix(s, 2, 2));
+        layers.push(Layer::Matrix(s, 3, 2));
+        if thorough {
+            layers.push(Layer::Matrix(s, 1, 1));
+            layers.push(Layer::Matrix(s, 4, 4));
+        }
+    }
+    layers.push(Layer::Enum(0));
+    layers.push(Layer::Enum(1));
+    layers.push(Layer::Other(0));
+    layers.push(Layer::Other(1));
+    let mods: &[u8] = if thorough { &[0, 1, 2, 3, 4, 5] } else { &[0, 1, 2] };
+    let mut v = Vec::new();
+    for l in layers {
+        for m in mods {
+            for lv in [true, false] {
+                v.push(ETy { lvalue: lv, ty: Ty { mods: Mods(*m), layer: l } });
+            }
+        }
+    }
+    v
+}
+
+pub fn run(args: &Args, out: &mut Out) {
+    if args.extra.first().map(|s| s.as_str()) == Some("--probe") {
+        // debugging aid: type check `----`-separated programs from a file and print the front end's answer
+        let src = std::fs::read_to_string(&args.extra[1]).unwrap_or_default();
+        for chunk in src.split("\n----\n") {
+            match guard(|| front_end_src(chunk)) {
+                Ok(Ok(_)) => println!("OK"),
+                Ok(Err(e)) => println!("ERR {}: {}", e.stage(), e.text()),
+                Err(p) => println!("PANIC {}", p),
+            }
+        }
+        return;
+    }
+    let mut r = Runner::new();
+    if let Some(lines) = args.request_lines() {
+        for line in lines {
+            let f: Vec<&str> = line.split('\t').collect();
+            match f.as_slice() {
+                ["C16.resolve", cs, az] | ["C16.resolve", cs, az, _] => {
+                    let with_defs = f.len() == 4 && f[3] == "D";
+                    let cands: Option<Vec<Cand>> = if cs.is_empty() { Some(vec![]) } else { cs.split(';').map(parse_cand).collect() };
+                    let az: Option<Vec<ETy>> = if az.is_empty() { Some(vec![]) } else { az.split(',').map(parse_ety).collect() };
+                    match (cands, az) {
+                        (Some(c), Some(a)) => r.resolve_case(&c, &a, with_defs, out),
+                        _ => out.case(&line, "-", "SKIP:bad request"),
+                    }
+                }
+                ["C16.conv", src, dsts] => {
+                    let s = parse_ety(src);
+                    let d: Option<Vec<ETy>> = dsts.split(' ').map(parse_ety).collect();
+                    match (s, d) {
+                        (Some(s), Some(d)) => r.conv_row(s, &d, out),
+                        _ => out.case(&line, "-", "SKIP:bad request"),
+                    }
+                }
+                _ => {}
+            }
+        }
+        out.stat(&format!("{{\"mode\":\"replay\",\"compiles\":{},\"hist\":{}}}", r.compiles, r.hist.json()));
+        return;
+    }
+    let mut rng = Rng::new(args.seed);
+    let mut hist = Hist::default();
+
+    // (1) exhaustive find/get_rank/get_target_type table over the type universe
+    let uni = conv_universe(args.thorough());
+    for s in &uni {
+        r.conv_row(*s, &uni, out);
+    }
+
+    // (2) pairs of one-parameter candidates over the property's grid x {in,out}: both orders, every grid argument type
+    //     as lvalue and rvalue plus the two untyped literals (quick: a seeded slice of the pairs)
+    let grid = grid_types();
+    let mut params = Vec::new();
+    for t in &grid {
+        params.push(Param { io: Io::In, ty: *t });
+        params.push(Param { io: Io::Out, ty: *t });
+    }
+    let mut arg_list: Vec<ETy> = Vec::new();
+    for t in &grid {
+        arg_list.push(ETy { lvalue: true, ty: *t });
+        arg_list.push(ETy { lvalue: false, ty: *t });
+    }
+    arg_list.push(ETy { lvalue: false, ty: Ty { mods: Mods(0), layer: Layer::Scalar(S_INTLIT) } });
+    arg_list.push(ETy { lvalue: false, ty: Ty { mods: Mods(0), layer: Layer::Scalar(S_FLOATLIT) } });
+    let mut pairs = 0u64;
+    for i in 0..params.len() {
+        for j in i + 1..params.len() {
+            if !args.thorough() && rng.below(16) != 0 {
+                continue;
+            }
+            pairs += 1;
+            let set = vec![
+                Cand { id: 0, non_default: 1, params: vec![params[i]] },
+                Cand { id: 1, non_default: 1, params: vec![params[j]] },
+            ];
+            for a in &arg_list {
+                r.all_orders(&set, &[*a], false, out);
+            }
+        }
+    }
+
+    // (3) random candidate sets of 2-5 overloads with 1-3 parameters: every permutation x several argument tuples
+    let n = args.n.unwrap_or(if args.thorough() { 5000 } else { 600 });
+    let tuples = if args.thorough() { 6 } else { 4 };
+    for _ in 0..n {
+        let (cands, centre) = random_set(&mut rng, &mut hist);
+        let with_defs = rng.chance(1, 4);
+        if with_defs {
+            hist.add("set:declared-then-defined");
+        }
+        for t in 0..tuples {
+            let a: Vec<ETy> = if t == 0 {
+                centre.iter().map(|c| ETy { lvalue: true, ty: *c }).collect()
+            } else {
+                centre.iter().map(|c| random_arg(&mut rng, *c)).collect()
+            };
+            // sometimes pass one argument more / fewer (default parameters, arity mismatch)
+            let a = if t > 1 && rng.chance(1, 10) && a.len() > 1 {
+                a[..a.len() - 1].to_vec()
+            } else if t > 1 && rng.chance(1, 10) && a.len() < 3 {
+                let mut b = a.clone();
+                let g = grid_ty(&mut rng);
+                b.push(random_arg(&mut rng, g));
+                b
+            } else {
+                a
+            };
+            r.all_orders(&cands, &a, with_defs, out);
+        }
+    }
+    for (k, v) in &hist.0 {
+        for _ in 0..*v {
+            r.hist.add(k);
+        }
+    }
+    out.stat(&format!(
+        "{{\"conv_universe\":{},\"conv_pairs\":{},\"single_param_pairs\":{},\"random_sets\":{},\"tuples_per_set\":{},\"compiles\":{},\"hist\":{}}}",
+        uni.len(),
+        uni.len() * uni.len(),
+        pairs,
+        n,
+        tuples,
+        r.compiles,
+        r.hist.json()
+    ));
 }
